@@ -39,19 +39,36 @@ const (
 )
 
 var phases = []string{"hdr", "body-half", "up-hold", "resp-half", "idle"}
+var protos = []string{"Http1", "Http2", "bolt"}
+
+// Every case runs ONE mosn with a listener, router and cluster (own scripted upstream) per protocol and
+// these closed-loop clients: 0 = the designated client (generated protocol / connection kind), 1..6 = one
+// kept-alive and one short-lived client per protocol, 7 (hot upgrade only) = a fresh connection per
+// request, cycling through the protocols.
+const nClients = 7
+
+func clientSpec(cs Case, id, seq int) (proto string, ka bool) {
+	switch {
+	case id == 0:
+		return cs.Proto, cs.KeepAlive
+	case id <= 6:
+		return protos[(id-1)/2], (id-1)%2 == 0
+	}
+	return protos[seq%3], false
+}
 
 // Case is one generated scenario.
 type Case struct {
 	Signal    string    `json:"signal"` // SIGTERM | SIGHUP
 	Proto     string    `json:"proto"`  // Http1 | Http2 | bolt
 	Phase     string    `json:"phase"`  // where the designated request is when the signal is sent
-	KeepAlive [4]bool   `json:"keepalive"`
+	KeepAlive bool      `json:"keepalive"` // the designated client keeps its connection (else: a new connection per request)
 	Warm      int       `json:"warm"`     // requests of client 0 before the designated one
 	ExtraMs   int       `json:"extra_ms"` // pause between reaching the phase and sending the signal
 	PostMs    int       `json:"post_ms"`  // pause between the signal and letting the designated request go on
 	DReq      int       `json:"designated_req_size"`
 	DResp     int       `json:"designated_resp_size"`
-	Seeds     [4]uint64 `json:"seeds"` // per client: sizes, upstream delays and think times of its other requests
+	Seed      uint64    `json:"seed"` // expanded per client: sizes, upstream delays and think times of all other requests
 	Quiet     bool      `json:"quiet_after_signal"` // SIGTERM only: the clients start no further requests once the signal is sent
 }
 
@@ -66,20 +83,15 @@ func genCase(rt *rapid.T, signal string) Case {
 	if signal == "SIGHUP" {
 		rot = 1
 	}
-	protos := []string{"Http1", "Http2", "bolt"}
 	c.Proto = protos[(rapid.IntRange(0, 2).Draw(rt, "proto")+rot)%3]
 	c.Phase = phases[(rapid.IntRange(0, 4).Draw(rt, "phase")+2*rot)%5]
-	for i := range c.KeepAlive {
-		c.KeepAlive[i] = rapid.Bool().Draw(rt, fmt.Sprintf("keepalive%d", i))
-	}
+	c.KeepAlive = rapid.Bool().Draw(rt, "keepalive")
 	c.Warm = rapid.IntRange(0, 3).Draw(rt, "warm")
 	c.ExtraMs = rapid.IntRange(0, 20).Draw(rt, "extraMs")
 	c.PostMs = rapid.OneOf(rapid.IntRange(0, 50), rapid.IntRange(0, 300)).Draw(rt, "postMs")
 	c.DReq = sizeGen(2).Draw(rt, "dreq")
 	c.DResp = sizeGen(2).Draw(rt, "dresp")
-	for i := range c.Seeds {
-		c.Seeds[i] = rapid.Uint64().Draw(rt, fmt.Sprintf("seed%d", i))
-	}
+	c.Seed = rapid.Uint64().Draw(rt, "seed")
 	if signal == "SIGTERM" {
 		c.Quiet = rapid.Bool().Draw(rt, "quiet")
 	}
@@ -108,9 +120,8 @@ type run struct {
 	cs      Case
 	no      int64
 	dir     string
-	addr    string
-	port    int
-	up      *upstream
+	addrs   map[string]string    // protocol -> listener address
+	ups     map[string]*upstream // protocol -> scripted upstream
 	p       *proc.Proc
 	sig     syscall.Signal
 	t0      time.Time
@@ -139,6 +150,7 @@ type run struct {
 type probe struct {
 	AtMs   int64  `json:"at_ms"`
 	Kind   string `json:"kind"` // ok | connect-refused | connect-timeout | connect-error
+	Proto  string `json:"proto"`
 	After  bool   `json:"after_sig"`
 	Answer string `json:"answer,omitempty"`
 }
@@ -173,28 +185,27 @@ func (r *run) fire() {
 		r.sigErr = r.p.Signal(r.sig)
 		r.signalled = true
 		r.gate.Unlock()
-		if r.sig == syscall.SIGHUP && r.cs.Proto == "bolt" {
+		if r.sig == syscall.SIGHUP {
 			atomic.StoreInt32(&r.split, 1)
 		}
 		close(r.fired)
 	})
 }
 
-func (r *run) dial() (xconn, error) {
-	switch r.cs.Proto {
+func (r *run) dial(proto string) (xconn, error) {
+	switch proto {
 	case "Http1":
-		return dialH1(r)
+		return dialH1(r, r.addrs[proto])
 	case "Http2":
-		return dialH2(r)
+		return dialH2(r, r.addrs[proto])
 	}
-	return dialBolt(r)
+	return dialBolt(r, r.addrs[proto])
 }
 
 // client is one closed-loop client: request, wait for the answer, think, next request.
 func (r *run) client(id int) {
 	defer r.wg.Done()
-	rnd := xs((r.cs.Seeds[id%4] ^ uint64(id)*0x9e3779b97f4a7c15) | 1)
-	ka := id < 4 && r.cs.KeepAlive[id] // client 4 (hot upgrade only): always a fresh connection per request
+	rnd := xs((r.cs.Seed ^ uint64(id+1)*0x9e3779b97f4a7c15) | 1)
 	var conn xconn
 	defer func() {
 		if conn != nil {
@@ -204,6 +215,7 @@ func (r *run) client(id int) {
 	seq := 0
 	for !r.stopped() {
 		isDesig := id == 0 && seq == r.cs.Warm
+		proto, ka := clientSpec(r.cs, id, seq)
 		if r.cs.Quiet && !isDesig && r.isSignalled() {
 			<-r.stop // quiet variant: nothing new after the signal, only what is in flight goes on
 			return
@@ -222,9 +234,9 @@ func (r *run) client(id int) {
 			}
 			start := r.ms()
 			after := r.isSignalled()
-			c, err := r.dial()
+			c, err := r.dial(proto)
 			if err != nil {
-				r.record(&result{Client: id, Seq: seq, KeepAlive: ka, NewConn: true, ConnAfterSig: after, Kind: classifyDial(err), Detail: err.Error(), StartMs: start, EndMs: r.ms()})
+				r.record(&result{Client: id, Seq: seq, Proto: proto, KeepAlive: ka, NewConn: true, ConnAfterSig: after, Kind: classifyDial(err), Detail: err.Error(), StartMs: start, EndMs: r.ms()})
 				select {
 				case <-r.stop:
 				case <-time.After(3 * time.Millisecond):
@@ -241,9 +253,9 @@ func (r *run) client(id int) {
 		} else {
 			tok := fmt.Sprintf("k%d-c%d-%d", r.no, id, seq)
 			p = newPlan(tok, sizeOf(&rnd), sizeOf(&rnd), time.Duration(rnd.n(30))*time.Millisecond)
-			r.up.add(p)
+			r.ups[proto].add(p)
 		}
-		res := &result{Client: id, Seq: seq, Token: p.Token, Desig: isDesig, KeepAlive: ka, StartMs: r.ms(), ReqSize: p.ReqSize, RespSize: p.RespSize, plan: p}
+		res := &result{Client: id, Seq: seq, Proto: proto, Token: p.Token, Desig: isDesig, KeepAlive: ka, StartMs: r.ms(), ReqSize: p.ReqSize, RespSize: p.RespSize, plan: p}
 		conn.do(p, h, res)
 		res.EndMs = r.ms()
 		r.record(res)
@@ -285,8 +297,9 @@ func (r *run) prober() {
 	for !r.stopped() {
 		after := r.isSignalled()
 		at := r.ms()
-		c, err := net.DialTimeout("tcp", r.addr, 5*time.Second)
-		pr := probe{AtMs: at, After: after, Kind: "ok"}
+		proto := protos[n%3]
+		c, err := net.DialTimeout("tcp", r.addrs[proto], 5*time.Second)
+		pr := probe{AtMs: at, After: after, Kind: "ok", Proto: proto}
 		if err != nil {
 			pr.Kind = classifyDial(err)
 		} else {
@@ -301,52 +314,61 @@ func (r *run) prober() {
 	}
 }
 
-func (r *run) firstRefusedProbe() bool {
+// allRefused: after the signal, a connect to every listener has been refused.
+func (r *run) allRefused() bool {
 	r.mu.Lock()
 	defer r.mu.Unlock()
+	seen := map[string]bool{}
 	for _, p := range r.probes {
 		if p.After && p.Kind == "connect-refused" {
-			return true
+			seen[p.Proto] = true
 		}
 	}
-	return false
+	return len(seen) == len(protos)
 }
 
 // ---------------------------------------------------------------- config + start
 
 func (r *run) writeConfig() (string, error) {
-	px := map[string]interface{}{"router_config_name": "r"}
-	switch r.cs.Proto {
-	case "Http1", "Http2":
-		px["downstream_protocol"], px["upstream_protocol"] = r.cs.Proto, r.cs.Proto
-	default:
-		px["downstream_protocol"], px["upstream_protocol"] = "X", "X"
-		px["extend_config"] = map[string]interface{}{"sub_protocol": r.cs.Proto}
+	var routers, listeners, clusters []interface{}
+	for _, proto := range protos {
+		px := map[string]interface{}{"router_config_name": "r_" + proto}
+		switch proto {
+		case "Http1", "Http2":
+			px["downstream_protocol"], px["upstream_protocol"] = proto, proto
+		default:
+			px["downstream_protocol"], px["upstream_protocol"] = "X", "X"
+			px["extend_config"] = map[string]interface{}{"sub_protocol": proto}
+		}
+		route := map[string]interface{}{"cluster_name": "up_" + proto, "timeout": "60s"}
+		routers = append(routers, map[string]interface{}{
+			"router_config_name": "r_" + proto,
+			"virtual_hosts": []interface{}{map[string]interface{}{
+				"name": "vh_" + proto, "domains": []string{"*"},
+				"routers": []interface{}{
+					map[string]interface{}{"match": map[string]interface{}{"prefix": "/"}, "route": route},
+					map[string]interface{}{"match": map[string]interface{}{"headers": []interface{}{map[string]interface{}{"name": "service", "value": ".*", "regex": true}}}, "route": route},
+				},
+			}},
+		})
+		listeners = append(listeners, map[string]interface{}{
+			"name": "ln_" + proto, "address": r.addrs[proto], "bind_port": true,
+			"filter_chains": []interface{}{map[string]interface{}{"filters": []interface{}{map[string]interface{}{"type": "proxy", "config": px}}}},
+		})
+		clusters = append(clusters, map[string]interface{}{
+			"name": "up_" + proto, "type": "SIMPLE", "lb_type": "LB_RANDOM", "max_request_per_conn": 1024, "conn_buffer_limit_bytes": 32768,
+			"hosts": []interface{}{map[string]interface{}{"address": r.ups[proto].Addr}},
+		})
 	}
 	cfg := map[string]interface{}{
 		"servers": []interface{}{map[string]interface{}{
 			"default_log_path":  filepath.Join(r.dir, "logs", "default.log"),
 			"default_log_level": logLevel(),
 			"graceful_timeout":  fmt.Sprintf("%dms", gracefulMs),
-			"routers": []interface{}{map[string]interface{}{
-				"router_config_name": "r",
-				"virtual_hosts": []interface{}{map[string]interface{}{
-					"name": "vh", "domains": []string{"*"},
-					"routers": []interface{}{
-						map[string]interface{}{"match": map[string]interface{}{"prefix": "/"}, "route": map[string]interface{}{"cluster_name": "up", "timeout": "60s"}},
-						map[string]interface{}{"match": map[string]interface{}{"headers": []interface{}{map[string]interface{}{"name": "service", "value": ".*", "regex": true}}}, "route": map[string]interface{}{"cluster_name": "up", "timeout": "60s"}},
-					},
-				}},
-			}},
-			"listeners": []interface{}{map[string]interface{}{
-				"name": "ln", "address": r.addr, "bind_port": true,
-				"filter_chains": []interface{}{map[string]interface{}{"filters": []interface{}{map[string]interface{}{"type": "proxy", "config": px}}}},
-			}},
+			"routers":           routers,
+			"listeners":         listeners,
 		}},
-		"cluster_manager": map[string]interface{}{"clusters": []interface{}{map[string]interface{}{
-			"name": "up", "type": "SIMPLE", "lb_type": "LB_RANDOM", "max_request_per_conn": 1024, "conn_buffer_limit_bytes": 32768,
-			"hosts": []interface{}{map[string]interface{}{"address": r.up.Addr}},
-		}}},
+		"cluster_manager": map[string]interface{}{"clusters": clusters},
 	}
 	b, _ := json.MarshalIndent(cfg, "", " ")
 	path := filepath.Join(r.dir, "conf", "mosn.json")
@@ -372,8 +394,10 @@ func (r *run) start(base string) error {
 		if err := os.MkdirAll(filepath.Join(r.dir, "logs"), 0o755); err != nil {
 			return err
 		}
-		r.port = proc.FreePort()
-		r.addr = fmt.Sprintf("127.0.0.1:%d", r.port)
+		r.addrs = map[string]string{}
+		for _, proto := range protos {
+			r.addrs[proto] = fmt.Sprintf("127.0.0.1:%d", proc.FreePort())
+		}
 		cfgPath, err := r.writeConfig()
 		if err != nil {
 			return err
@@ -387,12 +411,17 @@ func (r *run) start(base string) error {
 		ok := false
 		for time.Now().Before(end) {
 			if ex, code, _ := p.Exited(); ex {
-				lastErr = fmt.Errorf("mosn exited with %d while starting (port %d taken by someone else?): %s", code, r.port, r.logTail(12))
+				lastErr = fmt.Errorf("mosn exited with %d while starting (a port of %v taken by someone else?): %s", code, r.addrs, r.logTail(12))
 				break
 			}
-			c, err := net.DialTimeout("tcp", r.addr, time.Second)
-			if err == nil {
-				_ = c.Close()
+			up := 0
+			for _, proto := range protos {
+				if c, err := net.DialTimeout("tcp", r.addrs[proto], time.Second); err == nil {
+					_ = c.Close()
+					up++
+				}
+			}
+			if up == len(protos) {
 				ok = true
 				break
 			}
@@ -403,7 +432,7 @@ func (r *run) start(base string) error {
 			return nil
 		}
 		if lastErr == nil {
-			lastErr = fmt.Errorf("mosn did not accept on %s within %v: %s", r.addr, startDeadline, r.logTail(12))
+			lastErr = fmt.Errorf("mosn did not accept on %v within %v: %s", r.addrs, startDeadline, r.logTail(12))
 		}
 		p.Close()
 		r.p = nil
@@ -466,12 +495,15 @@ func execute(cs Case) (o *outcome, r *run, infra string) {
 	if cs.Signal == "SIGHUP" {
 		r.sig = syscall.SIGHUP
 	}
-	up, err := newUpstream(cs.Proto)
-	if err != nil {
-		return nil, r, "upstream listen: " + err.Error()
+	r.ups = map[string]*upstream{}
+	for _, proto := range protos {
+		up, err := newUpstream(proto)
+		if err != nil {
+			return nil, r, "upstream listen: " + err.Error()
+		}
+		r.ups[proto] = up
+		defer up.Close()
 	}
-	r.up = up
-	defer up.Close()
 	if err := r.start(ev.RunDir()); err != nil {
 		return nil, r, err.Error()
 	}
@@ -494,7 +526,7 @@ func execute(cs Case) (o *outcome, r *run, infra string) {
 	if cs.Phase == "up-hold" || cs.Phase == "resp-half" {
 		r.desig.HoldAt = cs.Phase
 	}
-	r.up.add(r.desig)
+	r.ups[cs.Proto].add(r.desig)
 	released := false
 	release := func() {
 		if !released {
@@ -505,14 +537,14 @@ func execute(cs Case) (o *outcome, r *run, infra string) {
 	defer release()
 	defer func() { r.stopAll(); r.wg.Wait() }()
 
-	r.wg.Add(5)
-	for i := 0; i < 4; i++ {
+	r.wg.Add(nClients + 1)
+	for i := 0; i < nClients; i++ {
 		go r.client(i)
 	}
 	go r.prober()
 	if cs.Signal == "SIGHUP" {
 		r.wg.Add(1)
-		go r.client(4)
+		go r.client(nClients)
 	}
 
 	// upstream-side phases: the coordinator fires when the upstream reports the phase
@@ -542,7 +574,7 @@ func execute(cs Case) (o *outcome, r *run, infra string) {
 			capT := time.After(listenCloseCap)
 		wait:
 			for {
-				if r.firstRefusedProbe() {
+				if r.allRefused() {
 					break
 				}
 				if ex, _, _ := r.p.Exited(); ex {
@@ -622,6 +654,8 @@ func execute(cs Case) (o *outcome, r *run, infra string) {
 	r.mu.Unlock()
 	sort.SliceStable(o.Results, func(i, j int) bool { return o.Results[i].StartMs < o.Results[j].StartMs })
 	o.NRequests = len(o.Results)
-	o.UpstreamBad = r.up.badList()
+	for _, proto := range protos {
+		o.UpstreamBad = append(o.UpstreamBad, r.ups[proto].badList()...)
+	}
 	return o, r, ""
 }
